@@ -101,8 +101,12 @@ def run(chk, program, tier):
         g = K.cfg_of(program, q)
         for nid, c, meth in K.reader_reads(g):
             if meth == 'readexactly':
-                read_n = K._const_int(c.args[0])
-    chk.check(read_n == 13, 'WF-LEN13', 'client::readexactly', file='nmea2000/ioclient.py', line=0, expected='the EByte client reads exactly 13 bytes per packet', found=read_n,
+                read_n = K.const_int_in(program, 'ioclient', c.args[0])
+    if read_n is None:
+        # no `readexactly(<integer literal>)` in any _receive_impl: the framing constant is spelt or placed differently; nothing was read
+        chk.unknown('WF-LEN13', 'client::readexactly', 'no readexactly(<literal>) found in a _receive_impl: how the EByte client frames the stream was not read', 'nmea2000/ioclient.py', 0)
+    else:
+      chk.check(read_n == 13, 'WF-LEN13', 'client::readexactly', file='nmea2000/ioclient.py', line=0, expected='the EByte client reads exactly 13 bytes per packet', found=read_n,
               detail='the receive path re-frames the stream with this constant; it must equal the packet length the encoder produces')
     for n, example in feas.items():
         frame = W.frame_bytes(n)
